@@ -154,7 +154,7 @@ def store_family():
         driver="store", trace_module="StoreTrace.tla",
         trace_consts={"Ids": '{"a","b"}', "Vals": '{"v1","v2"}', "TMode": '"seq"', "Clients": '{"c1"}'},
         partition=(lambda l: l["cfg"]["backend"], BACKENDS),
-        level="model_checking", fixed=None, materialise=store_materialise,
+        level="model_checking", fixed="fixed/store.ndjson", materialise=store_materialise,
         nontrivial=lambda prop, l: l["op"]["t"] in ("ni", "nc", "rc", "tk"),
         mc=dict(quick=[("MC_Store.tla", "MC_Store_FALSE.cfg"), ("MC_Store.tla", "MC_Store_TRUE.cfg")],
                 thorough=[("MC_Store.tla", "MC_Store_FALSE.cfg"), ("MC_Store.tla", "MC_Store_TRUE.cfg")]),
